@@ -390,6 +390,12 @@ func (r *Run) deadlockViolation(desc string) Violation {
 // ---------- hooks ----------
 
 func (r *Run) onRw(ev string) {
+	if ev == "acquired" && r.s.ReloadHeld() {
+		// a write transaction begins on the live database while a restore holds the reload lock: the restore is
+		// about to close that database under it
+		r.violate(Violation{Props: []string{"C17"}, Oracle: "snapshot", Sig: "tx-started-while-restore-holds-lock",
+			Detail: "a write transaction began while the restore held the reload lock"})
+	}
 	r.mu.Lock()
 	defer r.mu.Unlock()
 	switch ev {
